@@ -475,7 +475,9 @@ fn contains_inner_null(rows: &[V]) -> bool {
 // ---------------------------------------------------------------------------------------------
 
 /// null value of a type under a *valid* parent: structs/lists/ints are all simply Null
-fn merge_model(l: &V, r: &V, lt: &Ty, rt: &Ty) -> V {
+/// `plain_merge`: `merge()` (as opposed to `merge_with_schema()`) uses the left column as is when
+/// both sides have a List<Struct> column of identical type ("nothing to merge, use left")
+fn merge_model(l: &V, r: &V, lt: &Ty, rt: &Ty, plain_merge: bool) -> V {
     match (lt, rt) {
         (Ty::Struct(lf), Ty::Struct(rf)) => {
             let (ls, rs) = (matches!(l, V::S(_)), matches!(r, V::S(_)));
@@ -497,7 +499,7 @@ fn merge_model(l: &V, r: &V, lt: &Ty, rt: &Ty) -> V {
             let mut out = vec![];
             for (k, (n, t)) in lf.iter().enumerate() {
                 match rf.iter().position(|(rn, _)| rn == n) {
-                    Some(j) => out.push((n.clone(), merge_model(&lv(k), &rv(j), t, &rf[j].1))),
+                    Some(j) => out.push((n.clone(), merge_model(&lv(k), &rv(j), t, &rf[j].1, plain_merge))),
                     None => out.push((n.clone(), lv(k))),
                 }
             }
@@ -508,8 +510,9 @@ fn merge_model(l: &V, r: &V, lt: &Ty, rt: &Ty) -> V {
             }
             V::S(out)
         }
+        (Ty::List(lc), Ty::List(rc)) if plain_merge && lc == rc => l.clone(),
         (Ty::List(lc), Ty::List(rc)) if matches!(**lc, Ty::Struct(_)) && matches!(**rc, Ty::Struct(_)) => match (l, r) {
-            (V::L(li), V::L(ri)) if li.len() == ri.len() => V::L(li.iter().zip(ri).map(|(a, b)| merge_model(a, b, lc, rc)).collect()),
+            (V::L(li), V::L(ri)) if li.len() == ri.len() => V::L(li.iter().zip(ri).map(|(a, b)| merge_model(a, b, lc, rc, plain_merge)).collect()),
             (V::Null, V::Null) => V::Null,
             _ => unreachable!("list merge inputs are generated consistent"),
         },
@@ -744,21 +747,23 @@ fn run_merge(s: &mut Sink, scn: &MergeScn, si: usize, n: usize, lefts: &[(usize,
                 continue;
             }
             let rrows = &rrows_all[ri];
-            let want: Vec<V> = lrows.iter().zip(rrows).map(|(a, b)| merge_model(a, b, &scn.left, &scn.right)).collect();
+            let want_schema: Vec<V> = lrows.iter().zip(rrows).map(|(a, b)| merge_model(a, b, &scn.left, &scn.right, false)).collect();
+            let want_plain: Vec<V> = lrows.iter().zip(rrows).map(|(a, b)| merge_model(a, b, &scn.left, &scn.right, true)).collect();
             let vclass = validity_class(&lrows, rrows);
             let nontrivial = vclass != "no-top-null" && vclass != "empty";
             let h = ((si as u64) << 56) | ((n as u64) << 48) | ((*li as u64) << 24) | ri as u64;
             s.cov.eval(if nontrivial { Some(h) } else { None });
             s.cov.outcome(&format!("merge-input:{vclass}"));
             for helper in ["merge", "merge_with_schema"] {
+                let want = if helper == "merge" { &want_plain } else { &want_schema };
                 s.cov.evaluations += 1;
-                let Some((kind, detail)) = merge_once(helper, scn, &schema, la, ra, &p, &q, &want) else { continue };
+                let Some((kind, detail)) = merge_once(helper, scn, &schema, la, ra, &p, &q, want) else { continue };
                 // ---- root cause, derived from the input shape that is necessary for the failure ----
                 // the unsliced twin has the same values and null-buffer presence at offset 0 with
                 // zero-based list offsets: if it merges correctly, slicing is what breaks the input
                 let (lt2, rt2) = (rebuild(la.as_ref()), rebuild(ra.as_ref()));
                 let sliced = *lsl || *rsl;
-                let twin_ok = sliced && merge_once(helper, scn, &schema, &lt2, &rt2, &p, &q, &want).is_none();
+                let twin_ok = sliced && merge_once(helper, scn, &schema, &lt2, &rt2, &p, &q, want).is_none();
                 let cause = if kind == "columns" {
                     "identical-list-struct-column-emitted-twice"
                 } else if twin_ok {
